@@ -6,6 +6,7 @@ import (
 	"fmt"
 	"os"
 	"strconv"
+	"strings"
 	"testing"
 	"time"
 
@@ -38,27 +39,28 @@ type RunOut struct {
 
 // Stats is what a search worker reports at the end.
 type Stats struct {
-	Runs         int            `json:"runs"`
-	Violating    int            `json:"violating_runs"`
-	Nontrivial   int            `json:"nontrivial_runs"`
-	Steps        int64          `json:"steps"`
-	Yields       int64          `json:"yields"`
-	Switches     int64          `json:"switches"`
-	VTimeNs      int64          `json:"vtime_ns"`
-	Faults       map[string]int `json:"faults"`
-	Probes       map[string]int `json:"probes"`
-	Strategies   map[string]int `json:"strategies"`
-	Reasons      map[string]int `json:"reasons"`
-	Sigs         []string       `json:"sigs"`
-	Pairs        int            `json:"preemption_site_pairs"`
-	PairList     []string       `json:"pair_list,omitempty"`
-	Samples      []interface{}  `json:"samples"`
-	WallS        float64        `json:"wall_s"`
-	ToolErrors   []string       `json:"tool_errors,omitempty"`
-	FirstSeed    uint64         `json:"first_seed"`
-	LastSeed     uint64         `json:"last_seed"`
-	MaxThreads   int            `json:"max_threads"`
-	Inconclusive int            `json:"inconclusive"`
+	Runs         int             `json:"runs"`
+	Violating    int             `json:"violating_runs"`
+	Nontrivial   int             `json:"nontrivial_runs"`
+	Steps        int64           `json:"steps"`
+	Yields       int64           `json:"yields"`
+	Switches     int64           `json:"switches"`
+	VTimeNs      int64           `json:"vtime_ns"`
+	Faults       map[string]int  `json:"faults"`
+	Probes       map[string]int  `json:"probes"`
+	Strategies   map[string]int  `json:"strategies"`
+	Reasons      map[string]int  `json:"reasons"`
+	Sigs         []string        `json:"sigs"`
+	Pairs        int             `json:"preemption_site_pairs"`
+	PairList     []string        `json:"pair_list,omitempty"`
+	Samples      []interface{}   `json:"samples"`
+	WallS        float64         `json:"wall_s"`
+	ToolErrors   []string        `json:"tool_errors,omitempty"`
+	FirstSeed    uint64          `json:"first_seed"`
+	LastSeed     uint64          `json:"last_seed"`
+	MaxThreads   int             `json:"max_threads"`
+	Inconclusive int             `json:"inconclusive"`
+	SitesHit     map[string]bool `json:"sites_hit,omitempty"`
 }
 
 func splitmix(x uint64) uint64 {
@@ -288,6 +290,25 @@ func workerSearch(t *testing.T, p *Property, tier string, enc *json.Encoder) {
 	}
 	os.WriteFile(os.Getenv("SIM_OUT")+".sigs", buf, 0o644)
 	st.Pairs = len(pairs)
+	// reach: which instrumented statements of the property's files were executed by simulated threads
+	st.SitesHit = map[string]bool{}
+	for name, hit := range simrt.SiteHits() {
+		for _, f := range p.Files {
+			if !strings.HasPrefix(name, f+":") {
+				continue
+			}
+			fields := strings.Fields(name)
+			if len(fields) < 2 {
+				continue
+			}
+			for _, fn := range p.Funcs {
+				if strings.Contains(fields[1], fn) {
+					st.SitesHit[name] = hit
+					break
+				}
+			}
+		}
+	}
 	st.WallS = time.Since(start).Seconds()
 	enc.Encode(map[string]interface{}{"type": "stats", "stats": st})
 }
